@@ -49,7 +49,7 @@ PROPS['C05'] = dict(
     quick=[bpm(1), bpm(1, diamond=1)],
     thorough=[bpm(2), bpm(1), bpm(2, diamond=1)],
     covers={'H_bpm': ['rejected-set0']},
-    bounds_text='nest of five provider sets (Build set, two siblings, one nested two deep, one shared) holding one source of each kind: 15 output slots; 1 (quick) or 2 (thorough) slots take any id of a 16-id universe; both bindings have symbolic concrete types; "diamond" reaches one set along two paths',
+    bounds_text='nest of five provider sets (Build set, two siblings, one nested two deep, one shared) holding one source of each kind: 17 output slots (three of them interface bindings, in the Build set, in a sibling set and in the nested set); 1 (quick) or 2 (thorough) slots take any id of a 19-id universe; all bindings have symbolic concrete types; injector parameters named, blank or unnamed; "diamond" reaches one set along two paths',
     outside='identity of exotic Go types is types.Identical\'s (trusted); the front end that builds the sets',
     assumptions=COMMON_ASSUME + ['the two outputs of one item (T and *T) are distinct types', 'a binding does not bind an interface to itself (processBind, C11)'],
 )
